@@ -97,6 +97,7 @@ structure T where
   regFailed : Bool := false              -- a registration step failed: C16 speaks of histories without such failures
   issued : List Tok := []                -- every registration token handed out so far
   f12 : Bool := false                    -- known finding F12 triggered: a registration token was handed out a second time (generation wrap)
+  handouts : Nat := 0                    -- slots handed out so far (insertions, successful or not, and churned ones)
   f15 : Bool := false                    -- known finding F15 triggered (see onExec): later C16 clauses are attributed to it
   disablers : List Nat := []             -- sources that were disabled / enabled at some point (C07: nobody else is disturbed)
   postActors : List Nat := []            -- sources that had a non-Continue post action or a deferred request (C09: applied to no other)
@@ -329,7 +330,9 @@ def onObs (t : T) (x : Obs) : T :=
       { (t.flag .C09 s!"post action of composite source {k}: registration call for sub {sub} missing") with expectRegs := none }
     | _, _ => t
   match x with
-  | .exec o => onExec t o
+  | .exec o =>
+    let t := match o with | .churn n => { t with handouts := t.handouts + n } | _ => t
+    onExec t o
   | .top (.dispatch) =>
     let srcs := t.srcs.map fun (k, a) =>
       (k, { a with touched := false, armedInDisp := false, cbThisDispatch := 0, bsSeen := 0, synthSeen := false, bheSeen := 0,
@@ -347,11 +350,20 @@ def onObs (t : T) (x : Obs) : T :=
     | some (k, v), .ok => t.modSrc k fun a => { a with sent := a.sent ++ [v] }
     | _, _ => t
   | .ins k (.ok tok) =>
-    let t := if t.issued.contains tok then { t with f12 := true } else { t with issued := tok :: t.issued }
+    let t := { t with handouts := t.handouts + 1 }
+    -- a token handed out a second time: finding F12 when a generation can have wrapped (65536 reuses of one slot),
+    -- otherwise the list lost a slot's generation
+    let t := if t.issued.contains tok then
+        (if t.handouts ≥ 65536 then { t with f12 := true }
+         else
+           let t := t.flag .C06 s!"the registration token {tok.id}.{tok.ver} was handed out a second time after only {t.handouts} slot hand-outs (no generation wrap): the first holder's token is valid again"
+           t.flag .C01 s!"the registration token {tok.id}.{tok.ver} was handed out a second time after only {t.handouts} slot hand-outs: two sources answer to one token")
+      else { t with issued := tok :: t.issued }
     t.modSrc k fun a => { a with status := .enabled, goneOutside := false, tok := some tok, touched := true, everInserted := true, dirty := false, rr := a.ir, rw := a.iw,
                                  rmode := a.mode, disarmed := false, armed := a.kind == .timer && a.deadline.isSome,
                                  armedInDisp := t.inDispatch }
   | .ins k (.err _) =>
+    let t := { t with handouts := t.handouts + 1 }
     let t := if t.inDispatch then t else { t with insFailed := some k }
     let t := { t with regFailed := true, anyFailure := true }
     t.modSrc k fun a => { a with status := .absent, tok := none }
